@@ -88,6 +88,14 @@ impl Tok {
   }
 }
 
+/// Broadcast channels clone the payload for every receiver: a clone is the
+/// receiver's copy (its drop is not a library drop); the stored original stays armed.
+impl Clone for Tok {
+  fn clone(&self) -> Tok {
+    Tok { id: self.id, armed: false }
+  }
+}
+
 impl Drop for Tok {
   fn drop(&mut self) {
     if self.armed {
